@@ -337,7 +337,23 @@ pub fn run(seed: u64, count: usize, outdir: &str, which: &str) -> std::io::Resul
         for f in &res.fails { fails += 1; writeln!(oracle, "FAIL case={ci} {f} tree={}", res.case.chars().take(400).collect::<String>()).unwrap(); }
         if samples_out.len() < 3 && res.case.len() < 300 { samples_out.push(format!("{} => {}", res.case, res.impl_line)); }
         distinct.insert(res.case.clone());
-        cases.push_str(&res.case); cases.push('\n'); impls.push_str(&res.impl_line); impls.push('\n');
+        // C13: the flattening of consecutive affine remaps, against the model's product (Expr.aff_mul, which Affine4.v proves
+        // to be the 4x4 product): the matrix Tree::remap_affine stores after two calls on a non-affine target
+        let (mut case, mut il) = (res.case.clone(), res.impl_line.clone());
+        if which == "c13" {
+            let tiny = |r: &mut Rng| -> Affine3<f32> { let mut m = Matrix4::<f32>::identity();
+                if r.chance(0.6) { for i in 0..3 { m[(i, i)] = *r.pick(&[1e-4f32, 1e-5, 3e-3, 1e4, 1e-8, -1e-4]); } m[(r.below(3), 3)] = gen_tame(r); }
+                else { let a = *r.pick(&[5e-8f32, 1e-6, -3e-7, 0.7853982]); let (sn, c) = a.sin_cos(); m[(0, 0)] = c; m[(0, 1)] = -sn; m[(1, 0)] = sn; m[(1, 1)] = c; }
+                Affine3::from_matrix_unchecked(m) };
+            let (m1, m2) = if r.chance(0.4) { (tiny(&mut r), tiny(&mut r)) } else { (gen_affine(&mut r), gen_affine(&mut r)) };
+            let t = Tree::x().sin().remap_affine(m1).remap_affine(m2);
+            case.push_str(" F");
+            for m in [&m1, &m2] { let mm = m.matrix(); for i in 0..3 { for j in 0..4 { write!(case, " {}", canon_bits(mm[(i, j)])).unwrap(); } } }
+            il.push_str(" | fl");
+            match &*t { TreeOp::RemapAffine { mat, .. } => { let mm = mat.matrix(); for i in 0..3 { for j in 0..4 { write!(il, " {}", canon_bits(mm[(i, j)])).unwrap(); } } }
+                        _ => il.push_str(" not-flattened") }
+        }
+        cases.push_str(&case); cases.push('\n'); impls.push_str(&il); impls.push('\n');
     }
     // ---- one long-lived context through a history of build / import / evaluate / drop rounds:
     // what an import returns must not depend on trees that no longer exist
